@@ -87,7 +87,13 @@ JudgeEvent(ev) ==
   /\ (~anyPanic \/ Report("C11", "parse_panic", ev, ""))
   \* C05: the library type-checks exactly the well-typed ASTs
   /\ (~ev.parse.max.ok \/ st.ok \/ Report("C05", "accepts_ill_typed", ev, ""))
-  /\ (ev.parse.max.ok \/ ~sd.ok \/ Report("C05", "rejects_well_typed", ev, ev.parse.max.err))
+  \* (a well-typed script above the context's consensus size limit is refused for that reason, which
+  \* is C12's matter)
+  /\ (ev.parse.max.ok \/ ~sd.ok \/ ~WithinConsensusSize(ev.ast, ctx) \/ Report("C05", "rejects_well_typed", ev, ev.parse.max.err))
+  \* C12, rules no parameter set can lift: multisig flavour of the context, consensus script size
+  /\ (~ev.parse.max.ok \/ ~HasHardForbidden(ev.ast, ctx) \/ Report("C12", "accepts_multisig_flavour_of_another_context", ev, ""))
+  /\ (~ev.parse.max.ok \/ ~st.ok \/ WithinConsensusSize(ev.ast, ctx) \/ Report("C12", "accepts_script_above_consensus_size", ev, ByteLen(Encode(ev.ast, ctx))))
+  /\ (ev.parse.max.ok \/ ~sd.ok \/ WithinConsensusSize(ev.ast, ctx) \/ Report("INFO", "refused_for_consensus_size", ev, ""))
   /\ (ev.parse.max.ok \/ ~st.ok \/ sd.ok \/ Report("INFO", "deviation_D1_rejects", ev, ""))
   /\ (~(ev.have /\ st.ok) \/
       LET lt == LibTy(ev.ty)
